@@ -50,7 +50,25 @@ func init() {
 			seekS("p:s", "p:n"), seekS("p:s", "P:n"),
 			delTopic("p:t"), mkTopic("p:t"), delSub("p:s"), mkSub("p:s"),
 		}
+		// project ids outside ASCII (multi-byte in UTF-8) next to ASCII look-alikes:
+		// "exactly that project" must not depend on how long a name is in bytes
+		odd := []model.Op{
+			mkTopic("é:a"), mkTopic("e:a"), mkTopic("日本:a"), delTopic("é:a"), get("topic", "é:a"), get("topic", "日本:a"),
+			mkSub("é:s"), mkSub("e:s"), delSub("é:s"), get("sub", "é:s"),
+			snap("é:s", "é:n"), snap("e:s", "e:n"), snap("é:s", "e:m"), {K: "delSnap", Name: "é:n"}, get("snap", "é:n"),
+			list("listTopics", "é", 1), list("listTopics", "é", 100), list("listTopics", "e", 100), list("listTopics", "日本", 100),
+			list("listSubs", "é", 1), list("listSubs", "é", 100), list("listSubs", "e", 100),
+			list("listSnaps", "é", 1), list("listSnaps", "é", 100), list("listSnaps", "e", 100),
+			{K: "listTopicSubs", Topic: "é:a", Max: 100},
+		}
 		return []*hist.Scenario{
+			{
+				ID: "C12/non-ascii-projects", Prop: "C12", Depth: d(tier, 6, 7),
+				Cfg: model.Cfg{Topics: []string{"é:a", "e:a", "日本:a"}, LazyTopics: []string{"é:a", "e:a", "日本:a"},
+					Subs: []model.SubCfg{{Name: "é:s", Topic: "é:a"}, {Name: "e:s", Topic: "e:a"}},
+					Lazy: []string{"é:s", "e:s"}},
+				Alphabet: odd,
+			},
 			{
 				ID: "C12/topics", Prop: "C12", Depth: d(tier, 4, 5),
 				Cfg:      model.Cfg{Topics: topics, LazyTopics: topics},
